@@ -414,7 +414,8 @@ func zzTryGET(e *Engine, path string, hs []app.HandlerFunc) (ok bool) {
 // chain built for an earlier request is never reused stale.
 func ZZ_C12_H5() {
 	if zz.Choose("part", 2) == 0 {
-		n := []int{1, 61, 62, 63, 127, 128, 129, 200, 256, 257, 300}[zz.Choose("chainLength", 11)]
+		n := []int{1, 40, 50, 61, 62, 63, 127, 128, 129, 200, 256, 257, 300}[zz.Choose("chainLength", 13)]
+		twice := zz.Choose("everyHandlerCallsNextTwice", 2) == 1 // one of the property's seven behaviours, on a long chain
 		count := 0
 		order := true
 		hs := make([]app.HandlerFunc, n-1) // + one engine middleware = n
@@ -426,6 +427,9 @@ func ZZ_C12_H5() {
 				}
 				count++
 				ctx.Next(c)
+				if twice {
+					ctx.Next(c)
+				}
 			}
 		}
 		e := zzNewEngine()
